@@ -48,6 +48,8 @@ impl<'a> ConnectionMatrix<'a> {
     fn index(&self, left: u16, right: u16) -> usize {
         let uleft = left as usize;
         let uright = right as usize;
+        #[cfg(feature = "verif")]
+        crate::verif::matrix_access(uleft, uright, self.num_left, self.num_right, self.data.len());
         debug_assert!(uleft < self.num_left);
         debug_assert!(uright < self.num_right);
         let index = uright * self.num_left + uleft;
